@@ -9,7 +9,8 @@ from ..core import VOCAB, enc
 RULE = ("emitted strings: clean_vector() and the vector part of rh_vector() of accepted vectors of every version "
         "(every optional subset sampled, random input order), and ask_interactively() results for random answer "
         "scripts; each re-parsed by the library and matched against the pinned official vectorString pattern "
-        "(Python re and the Lean regex semantics); distinct = distinct emitted strings")
+        "(Python re and the Lean regex semantics); distinct = distinct emitted strings"
+        " + systematic field orders incl. the library's own table orders; objects built through from_rh_vector() and parse_cvss_from_text() emit the same valid vectors")
 ASSUMPTIONS = ["official patterns: pinned copies of FIRST's schemas under tools/schemas"]
 
 SCHEMA_OF = {"2": "2.0", "3.0": "3.0", "3.1": "3.1", "4": "4.0"}
@@ -176,7 +177,7 @@ def replay(data):
         im = core.impl()
         o, e = obs.construct(r["ver"], r["s"])
         if o is None:
-            return False, "rejected: %s" % e
+            return obs.rejected_verdict(r["ver"], r["s"], e)
         if r["how"].startswith("from_rh"):
             p = im.cls[r["ver"]].from_rh_vector(o.rh_vector())
         else:
@@ -196,7 +197,7 @@ def replay(data):
     if r["kind"] == "vector":
         o, e = obs.construct(r["ver"], r["s"])
         if o is None:
-            return False, "rejected: %s" % e
+            return obs.rejected_verdict(r["ver"], r["s"], e)
         for ch in r.get("pre", ""):
             core.obs_field(r["ver"], o, ch)
         outs = [o.clean_vector(), o.rh_vector().split("/", 1)[1]]
